@@ -165,6 +165,10 @@ def add_landmarks(rng, im, region=None, classes=("PointCloud", "PointUndirectedG
         n = int(rng.integers(4, 9))
         s = gen.shape(rng, cls, d=d, n=n)
         s.points = rng.uniform(lo, np.maximum(hi, lo + 0.5), (n, d))
+        if rng.random() < 0.12 and cls == "PointCloud":
+            # annotations stored as integer pixel positions (an integer-typed point cloud): moved like any other
+            import menpo.shape as ms
+            s = ms.PointCloud(np.round(s.points).astype(np.int64))
         if rng.random() < 0.15:
             # an annotation that carries marked sub-points of its own (an outline with a few named corners)
             import menpo.shape as ms
@@ -571,7 +575,13 @@ def w_ops(ctx, rng, i):
             ctrl_t = (Lsrc - S / 2) @ A.T * 0.9 + np.array(tshape) / 2.0 + rng.normal(scale=0.12, size=Lsrc.shape)
             t = mt.ThinPlateSplines(ms.PointCloud(ctrl_t), ms.PointCloud(Lsrc.copy()))
             smooth = True
-        if op == "warp_affine" and rng.random() < 0.3:
+        if op == "warp_affine" and d == 2 and rng.random() < 0.12:
+            # a transform written with integer literals (an integer-typed matrix): "every second row", "skip the first two columns"
+            Li = [(2, 1), (1, 2), (2, 2), (3, 1), (1, 3)][rng.integers(0, 5)]
+            off = [int(v) for v in rng.integers(1, 4, 2)]
+            tshape = tuple(max(4, int((S[k] - 2 - off[k]) // Li[k])) for k in range(2))
+            t = mt.Affine(np.array([[Li[0], 0, off[0]], [0, Li[1], off[1]], [0, 0, 1]], dtype=np.int64))
+        elif op == "warp_affine" and rng.random() < 0.3:
             # a specialised member (its class promises more than "affine": the landmark side may rely on that)
             c_t, c_s = np.array(tshape) / 2.0, S / 2.0
             sk = int(rng.integers(0, 4))
@@ -701,7 +711,13 @@ def w_reuse(ctx, rng, i):
             if kind == "affine":
                 # keep it an exact affine relation so that landmarks == control points stay exact
                 P = (tpl - TS / 2.0) @ gen.well_conditioned(rng, 2, 0.8, 1.3).T + S / 2.0
-            t.set_target(ms.PointCloud(P))
+            if rng.random() < 0.4 and kind != "affine":
+                # the caller refreshes the coordinates of the target object the alignment holds and hands the same object over again
+                tobj = t.target
+                tobj.points[...] = P
+                t.set_target(tobj)
+            else:
+                t.set_target(ms.PointCloud(P))
         src.landmarks["g0"] = ms.PointCloud(P.copy())
         bsz = [None, None, 11, 400][rng.integers(0, 4)]
         res, T = call(src.warp_to_shape, bool(rng.random() < 0.5), tshape, t, warp_landmarks=True, **({} if bsz is None else {"batch_size": bsz}))
